@@ -615,3 +615,11 @@ T("L24", "C04", RU, "          s += 2 ** (i - m)\n          d = s**2 - n\n      
 F("L25", "C04", RU, "        for _ in range(2**m):\n          s += 2 ** (i - m)", "        for _ in range(2**m - 1):\n          s += 2 ** (i - m)", "R-C04-HIGHLOW", "one pass short: total advance is not 2^i")
 F("L26", "C18", EC, "    if shift > 0:\n      h >>= shift", "    if shift:\n      h >>= shift", "R-C18-SHIFT", "negative shift count for hashes shorter than the order (seed r3)")
 T("L27", "C18", EC, "    if shift > 0:\n      h >>= shift", "    if shift >= 1:\n      h = h >> shift", "shift guarded by >= 1")
+
+# ---------------------------------------------------------------------------------- C08 subset generator, semantic version (round 3)
+F("L30", "C08", HN, "      num_constants = (sample_size - 1) // len(a) + 1\n      yield a, b, constant_list[:num_constants], w", "      num_constants = max(1, sample_size // len(a))\n      yield a, b, constant_list[:num_constants], w", "R-C08-SUBSETS", "floor instead of ceil constants in the exact regime (seed r3)")
+T("L31", "C08", HN, "      num_constants = (sample_size - 1) // len(a) + 1\n      yield a, b, constant_list[:num_constants], w", "      count = (sample_size + len(a) - 1) // len(a)\n      yield a, b, constant_list[:count], w", "ceil written as (S + L - 1) // L")
+F("L32", "C08", HN, "    elif len(a) >= min_signatures:\n", "    elif len(a) > min_signatures:\n", "R-C08-SUBSETS", "exactly min_signatures signatures produce no problem")
+F("L33", "C08", HN, "          b0 = b[i : i + sliding_window_size]\n          yield a0, b0, constant_list[:num_constants], w", "          b0 = b[i + 1 : i + 1 + sliding_window_size]\n          yield a0, b0, constant_list[:num_constants], w", "R-C08-SUBSETS", "sliding windows of a and b misaligned")
+F("L34", "C08", HN, "        yield a + [0], b + [1], constant_list[:num_constants], w", "        yield a + [1], b + [0], constant_list[:num_constants], w", "R-C08-SUBSETS", "key-inclusion sample swapped")
+T("L35", "C08", HN, "    elif len(a) == min_signatures - 1:\n      if flags & SearchStrategy.INCLUDE_KEY:", "    elif len(a) + 1 == min_signatures and flags & SearchStrategy.INCLUDE_KEY:\n      if True:", "key-inclusion regime test rewritten")
